@@ -69,6 +69,13 @@ PreA(S)         == Acyc /\ SmallEnough /\ S # {} /\
 PathsA(S, T)    == S # {} /\ T # {} /\ S \cap T = {} /\ SmallEnough /\
                    Obs("get_nodes_in_directed_paths", <<S, T>>, NodesOnDirectedPaths(g, S, T))
 
+\* further helpers (diagnostic observations)
+DistrictOfA(v)  == Obs("get_district", {v}, District(g, v))
+NoEffectA(S, T) == S # {} /\ T # {} /\ S \cap T = {} /\ Obs("get_no_effect_on_outcomes", <<S, T>>, NoEffectOnOutcomes(g, S, T))
+IntAncA(S, T)   == T # {} /\ S \cap T = {} /\ Obs("get_intervened_ancestors", <<S, T>>, IntervenedAncestors(g, S, T))
+AFixA(v)        == Obs("is_a_fixable", {v}, {AFixable(g, v)})
+PFixA(v)        == Obs("is_p_fixable", {v}, {PFixable(g, v)})
+
 Next ==
   /\ Len(hist) <= Depth
   /\ \/ \E S \in SUBSET g.n :
@@ -77,6 +84,8 @@ Next ==
           \/ PreOrdA(S) \/ PreA(S)
           \/ \E T \in SUBSET g.n : PathsA(S, T)
      \/ Moral \/ DistrictsA \/ DisorientA \/ TopoA
+     \/ \E v \in g.n : DistrictOfA(v) \/ AFixA(v) \/ PFixA(v)
+     \/ \E S \in SUBSET g.n : \E T \in SUBSET g.n : NoEffectA(S, T) \/ IntAncA(S, T)
 
 Spec == Init /\ [][Next]_vars
 
